@@ -353,6 +353,8 @@ structure St (κ ν : Type) where
   children : List (Child κ)
   outs : Outs κ ν
   cached : Option (Cur κ ν)
+  /-- the index maps of the last (attempted) build: what the present sub-graph is wired along -/
+  maps : List (Dict κ) := []
 
 def init (s : Spec κ ν) : St κ ν :=
   { children := s.bodyInputs.map .input, outs := ndOuts s, cached := none }
@@ -383,19 +385,56 @@ def run (s : Spec κ ν) (st : St κ ν) (cur : Cur κ ν) (order : List Nat) : 
     | .ok maps =>
       if listsClash s then
         -- raised out of `_on_cache_miss` half-way through the build: nothing ran, nothing cached
-        ({ st with children := buildClash s maps st.children }, .labelClash)
+        ({ st with children := buildClash s maps st.children, maps := maps }, .labelClash)
       else
       if s.startAbort && strandedCollector s maps then
         -- the stranded collector's `ReadinessError` aborts the run before the signal loop
         ({ children := build s maps st.children, outs := ndOuts s,
-           cached := if s.useCache && !s.clearOnFail then some cur else none }, .readiness)
+           cached := if s.useCache && !s.clearOnFail then some cur else none, maps := maps }, .readiness)
       else
       -- (otherwise that failure is collected like any other child's and the rest still runs)
       let outs := evalOuts s cur maps order
       ({ children := build s maps st.children, outs,
-         cached := if s.useCache && (outs.complete || !s.clearOnFail) then some cur else none },
+         cached := if s.useCache && (outs.complete || !s.clearOnFail) then some cur else none, maps := maps },
        if outs.complete then .ok else .failedChild)
   else ({ st with cached := if s.useCache && !s.gateCache then some cur else st.cached }, .readiness)
+
+/-- a pickle / save-load round trip of the node AT REST (between runs, also after a refused or failed
+run): the restored copy has the same children in the same order with the same connections
+(`Composite.__setstate__`), the same output values, the same input cache, and its value links are
+re-forged without sending values (`For.__setstate__`); nothing the model observes changes -/
+def reload (st : St κ ν) : St κ ν := st
+
+/-- the state a copy is restored to when the node was pickled WHILE the run on `cur` was in flight
+(every body node out on an executor, everything else that can run has run) and its `running` flags
+are cleared by hand afterwards: the new sub-graph is already built, forming the output value links has
+sent `NOT_DATA` to the outputs, what does not depend on a body has been delivered (lists form: the
+columns of the looped inputs) — i.e. the outputs are `evalOuts` with NO body completed —, and the
+input cache of the unfinished run is not carried (`Node.__getstate__`). `none`: no run is in flight
+(cache hit, refusal, or the build raised) -/
+def midRun (s : Spec κ ν) (st : St κ ν) (cur : Cur κ ν) : Option (St κ ν) :=
+  if isHit s st cur then none
+  else if ready cur then
+    match indexMapsOf (dataOf cur) (some s.iterOn) (some s.zipOn) with
+    | .error _ => none
+    | .ok maps =>
+      if listsClash s then none
+      else some { children := build s maps st.children, outs := evalOuts s cur maps [], cached := none,
+                  maps := maps }
+  else none
+
+/-- what can happen to a loop node between its creation and a later run -/
+inductive Ev (κ ν : Type)
+  | run (cur : Cur κ ν) (order : List Nat)   -- a run (any inputs, any completion order)
+  | reload                                   -- round trip at rest; the history continues on the copy
+  | snap (cur : Cur κ ν)                     -- a run on `cur` is started, the node is pickled while its
+                                             -- bodies are out, the history continues on THAT copy
+
+def evs (s : Spec κ ν) (st : St κ ν) : List (Ev κ ν) → St κ ν
+  | [] => st
+  | .run cur order :: r => evs s (run s st cur order).1 r
+  | .reload :: r => evs s (reload st) r
+  | .snap cur :: r => evs s ((midRun s st cur).getD st) r
 
 /-- a history of runs -/
 def runs (s : Spec κ ν) (st : St κ ν) : List (Cur κ ν × List Nat) → St κ ν
